@@ -215,6 +215,23 @@ theorem C10_getargs_group (db : VDB) (key : Option Key) (subs : List Name) (m : 
         · exact hv
         · exact h2 s l' hm
 
+/-- the dict built for a group source is keyed by the sub-task's own name — what follows `<group>:` in the full task
+    name — whatever characters that name contains (':' included) -/
+theorem C10_group_key_strips_prefix (group name : List Char) : subKey group (group ++ ':' :: name) = name := by
+  simp [subKey, List.drop_append]
+
+/-- … so distinct sub-tasks of one group never collapse into one entry -/
+theorem C10_group_keys_injective (group n₁ n₂ : List Char)
+    (h : subKey group (group ++ ':' :: n₁) = subKey group (group ++ ':' :: n₂)) : n₁ = n₂ := by
+  simpa [C10_group_key_strips_prefix] using h
+
+/-- taking the last ':'-separated segment instead (seeded change `C10-r4-group-getargs-key-rsplit`) is not the same
+    function: `build:linux:x86` and `build:mac:x86` would both be delivered under `x86` -/
+theorem C10_group_key_rsplit_counterexample :
+    subKeyLastSegment "build:linux:x86".toList = subKeyLastSegment "build:mac:x86".toList ∧
+    subKey "build".toList "build:linux:x86".toList = "linux:x86".toList ∧
+    subKey "build".toList "build:mac:x86".toList = "mac:x86".toList := by decide
+
 /-! ## calc_dep results in the same run -/
 
 /-- **C10, calc_dep.**  `update_deps` with the file_dep delivered by a calc_dep task is a redefinition of the
